@@ -138,9 +138,7 @@ theorem cap_pathStable : PathStable capMap := by
     rw [hd] at h2
     exact of_decide_eq_true h2
 
-instance (v : ZC) : Decidable (SvInverse v) := by unfold SvInverse; infer_instance
 
-instance {α : Type} (key : α → Int) (l : List α) : Decidable (C13.SortedBy key l) := by unfold C13.SortedBy; infer_instance
 
 open C13 in
 /-- one kernel evaluation of the decoded control points for all four clauses. -/
